@@ -70,7 +70,21 @@ def _trace_stats(path):
         c[k] = c.get(k, 0) + 1
         if o["ev"] == "text":
             c["text:era%d" % o["era"]] = c.get("text:era%d" % o["era"], 0) + 1
-        if o["ev"] == "set" or (o["ev"] == "text" and "ok" in o["got"]):
+        if o["ev"] == "instant":
+            k = "instant:" + ("pre" if o["era"] < 0 else "post")
+            c[k] = c.get(k, 0) + 1
+        if o["ev"] == "window":
+            # kind derived from the inputs only: shape of the window and where
+            # the timestamp lies relative to it
+            lo, hi = _val(o["lo"]), _val(o["hi"])
+            w = (hi - lo) % (1 << 32)
+            if w >= 1 << 31:
+                k = "window:illformed"
+            else:
+                k = "window:%s:%s" % ("straddle" if lo > hi else "plain",
+                                      "in" if (cur - lo) % (1 << 32) < w else "out")
+            c[k] = c.get(k, 0) + 1
+        if o["ev"] == "set" or (o["ev"] in ("text", "instant") and "ok" in o["got"]):
             cur = (o["v"][0] << 16) | o["v"][1]
         elif o["ev"] in ("add", "zonebump") and "ok" in o["serial"]:
             cur = (o["serial"]["ok"][0] << 16) | o["serial"]["ok"][1]
@@ -87,7 +101,7 @@ def _cur_before(trace_path, index):
     for i, o in enumerate(vlib.read_ndjson(trace_path), 1):
         if i >= index:
             break
-        if o["ev"] == "set" or (o["ev"] == "text" and "ok" in o["got"]):
+        if o["ev"] == "set" or (o["ev"] in ("text", "instant") and "ok" in o["got"]):
             cur = _val(o["v"])
         elif o["ev"] in ("add", "zonebump") and "ok" in o["serial"]:
             cur = _val(o["serial"]["ok"])
@@ -125,6 +139,10 @@ def _reject_to_violation(ctx, trace_path, rej, what):
         call = "place %d %d %d" % (cur, _val(ev["r"]), ev["era"])
     elif ev.get("ev") == "text":
         call = "text %d %d" % (ev["era"], _val(ev["v"]))
+    elif ev.get("ev") == "instant":
+        call = "instant %d %d" % (ev["era"] + 4, _val(ev["v"]))
+    elif ev.get("ev") == "window":
+        call = "window %d %d %d" % (cur, _val(ev["lo"]), _val(ev["hi"]))
     else:
         raise vlib.ToolError("trace rejected at a %r event: %r" % (ev.get("ev"), rej))
     ok, rej2 = _confirm(ctx, [call], "confirm")
@@ -206,6 +224,11 @@ def run(ctx):
                  workers=8, label="mc-text", timeout=3000)
     ctx.require_ok(tx, "MC_SerialText")
     ctx.require_actions(tx, ["Init", "Tick1", "Tick2", "TickBoth"])
+    # validity windows: membership, shift invariance, sliding
+    wn = ctx.tlc("MC_SerialWindow", "MC_SerialWindow_thorough" if thorough else "MC_SerialWindow",
+                 workers=8, label="mc-window", timeout=3000)
+    ctx.require_ok(wn, "MC_SerialWindow")
+    ctx.require_actions(wn, ["Init", "Shift", "Slide", "Renew"])
     # the limb model used for 32-bit operands equals the integer model
     lim = ctx.tlc("MC_SerialLimbs", "MC_SerialLimbs_thorough" if thorough else "MC_SerialLimbs",
                   workers=8, label="limbs-equiv", timeout=3000)
@@ -253,8 +276,49 @@ def run(ctx):
     ctx.require_ok(tg, "Gen_SerialText")
     if tg.ncases < 5000:
         raise vlib.ToolError("generator Gen_SerialText produced too few cases")
-    kinds_total["text_pairs"] = tg.ncases
+    n_text = n_inst = n_pre = n_cross = 0
+    with open(tcases) as f:
+        for line in f:
+            if '"kind":"text"' in line:
+                n_text += 1
+            elif '"kind":"instant"' in line:
+                n_inst += 1
+                o = json.loads(line)["in"]
+                if o["t1"] < 0 and o["t2"] < 0:
+                    n_pre += 1
+                elif (o["t1"] < 0) != (o["t2"] < 0):
+                    n_cross += 1
+    if n_text < 5000 or n_pre < 1000 or n_cross < 1000:
+        raise vlib.ToolError("vacuity: text pairs %d, instant pairs before the epoch %d, "
+                             "across it %d" % (n_text, n_pre, n_cross))
+    kinds_total["text_pairs"] = n_text
+    kinds_total["instant_pairs"] = n_inst
+    kinds_total["instant_pairs_before_epoch"] = n_pre
+    kinds_total["instant_pairs_across_epoch"] = n_cross
     ctx.replay_cases("replay_serial", tcases, label="serial-text")
+
+    # validity windows: every triple (window start, end, timestamp)
+    wcases = os.path.join(ctx.work, "cases-window.ndjson")
+    wg = ctx.tlc("MC_SerialWindow",
+                 "Gen_SerialWindow_thorough" if thorough else "Gen_SerialWindow",
+                 workers=8, label="gen-window", coverage=False, cases_to=wcases, count=False,
+                 timeout=3000)
+    ctx.require_ok(wg, "Gen_SerialWindow")
+    wk = {"accept": 0, "reject": 0, "any": 0, "straddle_accept": 0, "straddle_reject": 0}
+    with open(wcases) as f:
+        for line in f:
+            m = re.search(r'"cookie":"(accept|reject|any)"', line)
+            if not m:
+                continue
+            wk[m.group(1)] += 1
+            if '"straddle":true' in line:
+                wk["straddle_" + m.group(1)] += 1
+    missing = [k for k, v in wk.items() if v == 0]
+    if missing:
+        raise vlib.ToolError("vacuity: window cases never have %s" % missing)
+    for k, v in wk.items():
+        kinds_total["window_" + k] = v
+    ctx.replay_cases("replay_serial", wcases, label="serial-window")
 
     # placement cases: every (reference time in 3 eras, serial) pair
     pcases = os.path.join(ctx.work, "cases-place.ndjson")
@@ -301,7 +365,7 @@ def run(ctx):
             ctx.sample(json.loads(lines[2]))
             # binding self-tests: TLC must reject a corrupted comparison
             # result and a corrupted sum
-            for kind in ("cmp", "add"):
+            for kind in ("cmp", "add", "window"):
                 bad = os.path.join(ctx.work, "trace-bad-%s.ndjson" % kind)
                 lines2 = list(lines)
                 for j, l in enumerate(lines2):
@@ -314,6 +378,12 @@ def run(ctx):
                         o["serial"]["ok"][1] ^= 1
                         lines2[j] = json.dumps(o)
                         break
+                    if (kind == "window" and o["ev"] == "window" and j > 100
+                            and o["cookie"] == "accept" and o["range"] == "accept"
+                            and (_val(o["hi"]) - _val(o["lo"])) % (1 << 32) < 1 << 31):
+                        o["cookie"] = "reject"
+                        lines2[j] = json.dumps(o)
+                        break
                 open(bad, "w").write("\n".join(lines2) + "\n")
                 ok2, _, _ = ctx.validate_trace("Trace_Serial", "Trace_Serial", bad,
                                                label="trace-selftest-" + kind)
@@ -321,7 +391,9 @@ def run(ctx):
     need = ["set", "cmp:LT", "cmp:EQ", "cmp:GT", "cmp:UNDEF", "add:ok", "add:panic",
             "zonebump:ok", "place:era0:same", "place:era0:up", "place:era0:down",
             "place:era1:up", "place:era1:down", "place:era2:up", "place:half",
-            "text:era0", "text:era1", "text:era2"]
+            "text:era0", "text:era1", "text:era2", "instant:pre", "instant:post",
+            "window:plain:in", "window:plain:out", "window:straddle:in",
+            "window:straddle:out", "window:illformed"]
     tstats["place:half"] = sum(v for k, v in tstats.items()
                                if k.startswith("place:") and k.endswith(":half"))
     missing = [k for k in need if tstats.get(k, 0) == 0]
